@@ -897,6 +897,135 @@ def check_checker_eq(ctx, ad: EqAdapter, episodes_quick=40, episodes_thorough=60
 
 
 # ------------------------------------------------------------------------------------------------
+# multi-dimensional batch sizes (legal API usage: batch_size = [B1, B2] as list / tuple / torch.Size)
+# ------------------------------------------------------------------------------------------------
+MULTIDIM_NOTE = ("multi-dimensional batch sizes [B1, B2] / [B1, B2, B3] (list, tuple, torch.Size; B2 = n and B2 ≠ n) are "
+                 "exercised for TSPEnv reset + step (the only env of this family whose clean code supports them: ATSPEnv "
+                 "raises in batch_to_scalar, PDPEnv in the depot concatenation, SMTWTPEnv masks a whole batch slice with "
+                 "`available[:, 0] = 0`); `TSPEnv._get_reward` gathers along dim 1 and does not support them either (it "
+                 "raises, or for B2 = n returns values of the wrong instances), so the reward of a multi-dimensional run is "
+                 "taken through the flat view `td.reshape(-1)`")
+
+
+def check_multidim_batch(ctx, groups_quick=14, groups_thorough=150):
+    """TSPEnv with `batch_size = [B1, B2]` (…): every index must show exactly the trace of the per-instance model —
+    mask width = number of cities, no dead end, done after n steps, a feasible tour — and the same masks / done
+    flags / first and current node as the flat `[B1·B2]` run of the same instances with the same actions."""
+    ad = TSP
+    from rl4co.envs.routing.tsp.env import TSPEnv
+
+    total = ctx.budget(groups_quick, groups_thorough)
+    for g in range(total):
+        n = ctx.rng.choice([2, 3, 4, 5, 8, 8, 26])
+        B1 = ctx.rng.choice([1, 2, 3])
+        B2 = ctx.rng.choice([1, 2, 3, n, n, n + 1, max(1, n - 1)])
+        dims = [B1, B2] if ctx.rng.random() < 0.8 else [B1, 1, B2]
+        if n > 20:
+            dims = [2, ctx.rng.choice([2, n])]
+        N = 1
+        for d in dims:
+            N *= d
+        how = ctx.rng.choice(["list", "tuple", "Size"])
+        bs = {"list": list(dims), "tuple": tuple(dims), "Size": torch.Size(dims)}[how]
+        explicit = ctx.rng.random() < 0.5  # pass batch_size= to reset as well, in the same spelling
+        insts = make_batch(ad, ctx, n, N)
+        cfg = ctx.rng.choice([{}, {"_torchrl_mode": True}])
+        env = TSPEnv(generator_params=dict(num_loc=n), check_solution=False, **cfg)
+        flat0 = ad.to_td(insts)
+        td0 = TensorDict({"locs": flat0["locs"].reshape(*dims, n, 2)}, batch_size=bs)
+        tag = f"{how}{'+explicit' if explicit else ''}"
+        ctx.count(f"tsp.multidim.dims={len(dims)}.{'B2=n' if dims[-1] == n else 'B2!=n'}")
+        ctx.count(f"tsp.multidim.{tag}")
+        wit0 = {"batch_size": list(dims), "batch_size_given_as": tag, "n": n, "env_kwargs": cfg}
+        try:
+            td = env.reset(td0.clone(), batch_size=bs) if explicit else env.reset(td0.clone())
+        except Exception as e:
+            ctx.violation("tsp:multidim-batch:reset-raises", f"reset with a multi-dimensional batch size raised {type(e).__name__}: {e}",
+                          dict(wit0, inst0=insts[0]))
+            continue
+        width = td["action_mask"].shape[-1]
+        if tuple(td["action_mask"].shape[:-1]) != tuple(dims) or width != n:
+            ctx.violation("tsp:multidim-batch:mask-width",
+                          f"action mask has shape {tuple(td['action_mask'].shape)} for batch_size {list(dims)} and {n} cities "
+                          "(one entry per city expected)", dict(wit0, inst0=insts[0]))
+        masks = [[] for _ in range(N)]
+        dones = [[] for _ in range(N)]
+        acts = [[] for _ in range(N)]
+        dead = None
+        t = 0
+        while True:
+            m = td["action_mask"].reshape(N, -1)
+            d = td["done"].reshape(N) if "done" in td.keys() else torch.zeros(N, dtype=torch.bool)
+            for r in range(N):
+                masks[r].append(rl.mask_str(m[r]))
+                dones[r].append(int(d[r]))
+            if bool(d.all()) or t > 3 * n + 5:
+                break
+            a = []
+            for r in range(N):
+                feas = [j for j, b in enumerate(m[r].tolist()) if b]
+                if not feas:
+                    dead = (r, t)
+                    a.append(0)
+                else:
+                    a.append(ctx.rng.choice(feas))
+            if dead is not None:
+                break
+            for r in range(N):
+                acts[r].append(a[r])
+            td.set("action", torch.tensor(a, dtype=torch.long).reshape(*dims))
+            td = env.step(td)["next"]
+            t += 1
+        replies = ctx.driver.ask_many([ad.line("episode", insts[r], acts[r]) for r in range(N)])
+        for r in range(N):
+            f = parse_fields(replies[r])
+            ctx.case((ad.name, "multidim", repr(insts[r]), tuple(acts[r]), tuple(dims), r), nontrivial=True)
+            wit = dict(wit0, flat_index=r, inst=insts[r] if n <= 8 else {"n": n, "kind": insts[r]["kind"]}, actions=acts[r],
+                       real_masks=masks[r][:3], real_done=dones[r])
+            first_done = dones[r].index(1) if 1 in dones[r] else None
+            if dead is not None and dead[0] == r:
+                ctx.violation("tsp:dead-end", "an unfinished instance of a multi-dimensional batch is offered no action", wit)
+            if first_done is not None and first_done != n:
+                ctx.violation("tsp:step-bound", f"instance finished after {first_done} steps, it has {n} cities", wit)
+            if first_done is None and dead is None:
+                ctx.violation("tsp:not-finished", "instance of a multi-dimensional batch never finished", wit)
+            if f.get("feas") == "0" and dead is None:
+                ctx.violation("tsp:infeasible-episode",
+                              "mask-confined episode of the real env (multi-dimensional batch) is infeasible by the Lean Spec", wit)
+            if "masks" in f and (f["masks"].split(",") != masks[r] or [int(c) for c in f["done"]] != dones[r]):
+                ctx.disagreement("tsp: trace of an instance inside a multi-dimensional batch differs from the per-instance model",
+                                 dict(wit, model_masks=f["masks"].split(",")[:3], model_done=f["done"]))
+        # the same instances and actions as a flat batch: the [B1, B2] run must be the flat run reshaped
+        if dead is None:
+            try:
+                tdf, epf = run_batch(ctx, ad, SizedEnv(lambda k: env, lambda x: x["locs"].shape[-2]), insts, forced=acts)
+                for r in range(N):
+                    same = epf.masks[r] == masks[r] and epf.done[r] == dones[r] and epf.actions[r] == acts[r]
+                    aux_f = _aux_state(epf.td, r)
+                    aux_m = {k: td[k].reshape(N, -1)[r].tolist() for k in ("first_node", "current_node", "i") if k in td.keys()}
+                    if not same or aux_f != aux_m:
+                        ctx.violation("tsp:batch-dependence:batch-shape",
+                                      "outcome of an instance differs between the multi-dimensional batch and the flat batch",
+                                      dict(wit0, flat_index=r, actions=acts[r], flat_masks=epf.masks[r][:3], multidim_masks=masks[r][:3],
+                                           flat_done=epf.done[r], multidim_done=dones[r], flat_state=aux_f, multidim_state=aux_m))
+                        break
+                # reward of the multi-dimensional run through the flat view of its final state
+                rew = real_rewards(env, td.reshape(N), epf, {})
+                rf = ctx.driver.ask_many([ad.line("episode", insts[r], acts[r]) for r in range(N)]) if False else replies
+                for r in range(N):
+                    f = parse_fields(rf[r])
+                    if "obj" in f and dones[r] and dones[r][-1] == 1:
+                        v = judge(ad, insts[r], acts[r], rew[r], -int(f["obj"]))
+                        if (v != "exact") if insts[r]["exact"] else (v == "far"):
+                            ctx.violation("tsp:reward-ne-objective", "reward (flat view of a multi-dimensional run) differs from the Spec objective",
+                                          dict(wit0, flat_index=r, actions=acts[r], real_reward=None if rew[r] is None else float(rew[r])))
+            except (EpisodeFailed, RewardShape, RuntimeError) as e:
+                ctx.note(f"tsp multidim: flat comparison skipped ({type(e).__name__})")
+        ctx.sample({"env": "tsp", "batch_size": list(dims), "given_as": tag, "n": n, "mask_shape": list(td["action_mask"].shape),
+                    "steps": t, "actions_index0": acts[0][:12]}, cap=4)
+
+
+# ------------------------------------------------------------------------------------------------
 # TSP with a single node (regression probe: the reward used to go through a squeezing gather)
 # ------------------------------------------------------------------------------------------------
 def tsp_single_node_probe(ctx, prop: str):
@@ -1042,6 +1171,7 @@ NOTE = {
     "smtwtp": "SMTWTPEnv modelled per instance (Rl4co/Env/Smtwtp.lean) over integers; the harness uses small integral processing "
               "times / due dates / weights, exact in float32",
 }
+STREAMS_PLACEHOLDER = None
 STREAMS = ("input streams: exact stream (hand-built instances on dyadic grids incl. sizes 26/50/101, coordinates shifted up to 8000 "
            "units and scaled by 2^-6..2^10, large/tiny costs, large times/weights: real float32 values must equal the model bit for "
            "bit) + generic stream (the repo's own generators under default and non-default options such as min_loc/max_loc, "
@@ -1082,6 +1212,8 @@ PARAM_THMS = {
                       ("Rl4co.Atsp.reward_eq", "gather index order `M[b, nodes_src, nodes_tgt]`")],
     ("C03", "smtwtp"): [("Rl4co.Smtwtp.weightedTardiness_eq", "cumsum along jobs, presum − due, clamp `< 0`")],
     ("C04", "tsp"): [("Rl4co.Tsp.firstFlag_eq", "first-step test `td['i'].all() == 0`")],
+    ("C02", "tsp"): [("Rl4co.Tsp.resetWidth_eq", "`_reset` size expression `init_locs.shape[-2]` (counted from the end)")],
+    ("C01", "tsp"): [("Rl4co.Tsp.resetWidth_eq", "`_reset` size expression `init_locs.shape[-2]` (counted from the end)")],
     ("C04", "atsp"): [("Rl4co.Atsp.firstFlag_cons", "first-step test `batch_to_scalar(td['i']) == 0`")],
     ("C06", "tsp"): [("Rl4co.Tsp.check_eq", "checker operator `==`")],
     ("C06", "atsp"): [("Rl4co.Atsp.check_eq", "checker operator `==`")],
@@ -1103,7 +1235,7 @@ def _reg(prop, fam, run, extra_assumptions=()):
         thms += [Theorem(nm, "proved", "extracted-token obligation: " + note) for nm, note in PARAM_THMS[(prop, fam)]]
         mods = mods + ["Rl4co.Proofs.TspfamParams"]
     register(Unit(prop, fam, run, drivers=DRV, lean_modules=mods, theorems=thms,
-                  assumptions=[NOTE[fam], STREAMS] + list(extra_assumptions) + ([] if thms else [NOTHM])))
+                  assumptions=[NOTE[fam], STREAMS] + ([MULTIDIM_NOTE] if fam == 'tsp' else []) + list(extra_assumptions) + ([] if thms else [NOTHM])))
 
 
 T = Theorem
@@ -1117,6 +1249,7 @@ THEOREMS.update({
     # ---------------- C02
     ("C02", "tsp"): [T("Rl4co.Tsp.mask_nonempty", "proved", "unfinished reachable state offers a node"),
                      T("Rl4co.Tsp.run_length", "proved", "done ⇔ exactly n steps (all rows of a batch finish together)"),
+                     T("Rl4co.Tsp.run_length_any_batch_shape", "proved", "for every batch shape the mask width `_reset` allocates (extracted size expression) is n, and done ⇔ that many steps"),
                      T("Rl4co.Tsp.done_stable", "proved", "done is absorbing whatever is stepped"),
                      T("Rl4co.Tsp.steps_le", "proved", "no mask-confined run is longer than n")],
     ("C02", "atsp"): [T("Rl4co.Atsp.mask_nonempty", "proved", "unfinished reachable state offers a node"),
@@ -1156,6 +1289,7 @@ THEOREMS.update({
     ("C04", "tsp"): [T("Rl4co.Tsp.batchStep_eq_rowStep", "proved", "lock-step lemma: with a common step counter the batch-global `td['i'].all() == 0` flag equals each row's own flag"),
                      T("Rl4co.Tsp.batchExec_eq_rowExec", "proved", "a batch reset together stays in lock-step; batched execution = row-wise execution"),
                      T("Rl4co.Tsp.batch_row_eq_solo", "proved", "state of row r after any batched steps = solo run of instance r on its own actions"),
+                     T("Rl4co.Tsp.batch_index_finish_together", "proved", "any index set ι (e.g. pairs of a [B1,B2] batch) through the flattening map: every index carries the solo state, done ⇔ n columns"),
                      T("Rl4co.Tsp.batch_rows_finish_together", "proved", "∀ batch ∀ row: every row of a mask-confined batch of n-node instances is the solo state and is done ⇔ n columns were played")],
     ("C04", "atsp"): [T("Rl4co.Atsp.batchStep_eq_rowStep", "proved", "lock-step lemma for the row-0 read `batch_to_scalar(td['i'])`"),
                       T("Rl4co.Atsp.batchExec_eq_rowExec", "proved", "batched execution = row-wise execution, rows stay in lock-step"),
@@ -1225,13 +1359,13 @@ THEOREMS.update({
 })
 
 RUNS = {
-    "C01": {"tsp": lambda c: envcorr.check_feasibility(c, TSP), "atsp": lambda c: envcorr.check_feasibility(c, ATSP),
+    "C01": {"tsp": lambda c: (envcorr.check_feasibility(c, TSP), check_multidim_batch(c)), "atsp": lambda c: envcorr.check_feasibility(c, ATSP),
             "pdp": _both(envcorr.check_feasibility)},
-    "C02": {"tsp": lambda c: check_termination_eq(c, TSP), "atsp": lambda c: check_termination_eq(c, ATSP),
+    "C02": {"tsp": lambda c: (check_termination_eq(c, TSP), check_multidim_batch(c)), "atsp": lambda c: check_termination_eq(c, ATSP),
             "pdp": _both(check_termination_eq), "smtwtp": lambda c: check_termination_eq(c, SM)},
-    "C03": {"tsp": lambda c: (check_reward_eq(c, TSP), tsp_single_node_probe(c, "C03")), "atsp": lambda c: check_reward_eq(c, ATSP),
+    "C03": {"tsp": lambda c: (check_reward_eq(c, TSP), tsp_single_node_probe(c, "C03"), check_multidim_batch(c, 6, 60)), "atsp": lambda c: check_reward_eq(c, ATSP),
             "pdp": _both(check_reward_eq), "smtwtp": lambda c: check_reward_eq(c, SM)},
-    "C04": {"tsp": lambda c: (check_batch_eq(c, TSP), tsp_single_node_probe(c, "C04")), "atsp": lambda c: check_batch_eq(c, ATSP),
+    "C04": {"tsp": lambda c: (check_batch_eq(c, TSP), tsp_single_node_probe(c, "C04"), check_multidim_batch(c)), "atsp": lambda c: check_batch_eq(c, ATSP),
             "pdp": _both(check_batch_eq), "smtwtp": lambda c: check_batch_eq(c, SM)},
     "C05": {"tsp": lambda c: envcorr.check_completeness(c, TSP, nmax_quick=4), "atsp": lambda c: envcorr.check_completeness(c, ATSP, nmax_quick=4),
             "pdp": _both(lambda c, ad: envcorr.check_completeness(c, ad, nmax_quick=4)),
